@@ -573,7 +573,7 @@ def extract_linear_coefficient(expr: Expression, var: Variable) -> float:
 
 def _extract_coefficient_impl(expr: Expression, var: Variable) -> float:
     """Recursive coefficient extraction."""
-    from optyx.core.vectors import LinearCombination, VectorSum
+    from optyx.core.vectors import LinearCombination, VectorPowerSum, VectorSum
 
     # Constant - contributes 0 to variable coefficient
     if isinstance(expr, Constant):
@@ -606,6 +606,14 @@ def _extract_coefficient_impl(expr: Expression, var: Variable) -> float:
         for v in expr.vector._variables:
             if v.name == var.name:
                 return 1.0
+        return 0.0
+
+    # sum(x ** 1) is the sum of the variables; sum(x ** 0) is a constant
+    if isinstance(expr, VectorPowerSum):
+        if expr.power == 1:
+            for v in expr.vector._variables:
+                if v.name == var.name:
+                    return 1.0
         return 0.0
 
     # Binary operations
@@ -691,12 +699,23 @@ def extract_constant_term(expr: Expression) -> float:
 
 def _extract_constant_impl(expr: Expression) -> float:
     """Recursive constant term extraction."""
-    from optyx.core.vectors import LinearCombination, VectorSum, VectorVariable
+    from optyx.core.vectors import (
+        LinearCombination,
+        VectorPowerSum,
+        VectorSum,
+        VectorVariable,
+    )
 
     if isinstance(expr, Constant):
         return float(expr.value)
 
     if isinstance(expr, Variable):
+        return 0.0
+
+    # sum(x ** 0) is the constant len(x); sum(x ** 1) has no constant term
+    if isinstance(expr, VectorPowerSum):
+        if expr.power == 0:
+            return float(len(expr.vector._variables))
         return 0.0
 
     # Sums over plain variables have no constant term
@@ -926,7 +945,12 @@ def _extract_all_coefficients_impl(
         result: Output array to accumulate coefficients into.
         multiplier: Current coefficient multiplier from parent expressions.
     """
-    from optyx.core.vectors import LinearCombination, VectorSum, VectorVariable
+    from optyx.core.vectors import (
+        LinearCombination,
+        VectorPowerSum,
+        VectorSum,
+        VectorVariable,
+    )
 
     # Constant - no variable coefficients
     if isinstance(expr, Constant):
@@ -959,6 +983,16 @@ def _extract_all_coefficients_impl(
             for i, elem in enumerate(expr.vector._expressions):
                 coeff = float(expr.coefficients[i]) * multiplier
                 _extract_all_coefficients_impl(elem, var_index, result, coeff)
+        return
+
+    # sum(x ** k) is linear only for k == 1 (the sum of the variables);
+    # k == 0 is the constant len(x) and has no coefficients
+    if isinstance(expr, VectorPowerSum):
+        if expr.power == 1:
+            for var in expr.vector._variables:
+                idx = var_index.get(var.name)
+                if idx is not None:
+                    result[idx] += multiplier
         return
 
     # Binary operations
